@@ -2,6 +2,7 @@ package serix
 
 import (
 	"context"
+	"math/big"
 	"reflect"
 	"strconv"
 	"time"
@@ -64,7 +65,18 @@ func (api *API) mapDecodeBasedOnType(ctx context.Context, mapVal any, value refl
 			if err != nil {
 				return ierrors.Wrap(err, "failed to read big.Int from map")
 			}
-			value.Addr().Elem().Set(reflect.ValueOf(bigInt))
+			if !value.CanAddr() {
+				// the *big.Int is the destination itself: the result is stored in the number it points to
+				//nolint:forcetypeassert // false positive, we already checked the type via reflect
+				target := value.Interface().(*big.Int)
+				if target == nil {
+					return ierrors.New("can't decode into a nil *big.Int")
+				}
+				target.Set(bigInt)
+
+				return nil
+			}
+			value.Set(reflect.ValueOf(bigInt))
 
 			return nil
 		}
